@@ -290,4 +290,24 @@ PROPS = {
             "file removal is not part of the statement and is not generated; FileIds are stable across the history and identical in the fresh hosts",
         ],
     },
+    "C12": {
+        "bin": "m_conc",
+        "build": BUILD_VH,
+        "level": "exploration",
+        "budget": {"quick": 25, "thorough": 900},
+        "timeout": {"quick": 1500, "thorough": 14400},
+        "death_is_violation": False,
+        "shards": {"quick": 8, "thorough": 8},
+        "rule": ("scenarios mirroring the server's ownership: a main thread owns the AnalysisHost, takes snapshots tagged with the version they were taken at, hands them to 1-4 reader threads and applies 1-6 changes with known "
+                 "contents (file edits, file added with roots re-set, package-graph-only change); readers sweep 24 seeded queries (hover, goto, references, completion, highlight, diagnostics, signature help, semantic highlight) cyclically "
+                 "with seeded sleeps/yields until cancelled. Recorded at the API boundary: (reader, tag, probe, start time, answer | Cancelled | panic). Afterwards every answer is compared with a fresh sequential analysis of the "
+                 "tagged version. evaluations = recorded queries; non-trivial = scenario in which at least one query answered and at least one was cancelled; distinct by the hash of the global completion order of answers (interleaving signature)."),
+        "assumptions": [
+            "(a) an answer must equal the answer of its snapshot's own version (else: answer of a later/earlier version, or a mixture); (b) only Err(Cancelled) may surface, never a panic; "
+            "(c) promptness restated: no query that STARTS more than 700 ms after the next change was requested may still return an answer, and apply_change never takes longer than a reader's sweep cap (2.5 s); "
+            "(d) the snapshots handed out after apply_change returned are checked against the NEW version",
+            "8 shards x (1 main + <=4 readers) threads on 16 cores; wall-clock enters only through the generous bounds in (c)",
+            "Miri (data-race / UB interpreter) on the smallest scenario: thorough tier",
+        ],
+    },
 }
